@@ -7,6 +7,7 @@ from harness import c20_threaded
 PROP = 'C20'
 MODEL_MODULES = ['TenpyModel.Util.J', 'TenpyModel.C20.Events', 'TenpyModel.C20.Cache', 'TenpyModel.C20.Threaded']
 PROPS_MODULES = ['TenpyModel.C20.PropsEvents', 'TenpyModel.C20.PropsCache', 'TenpyModel.C20.PropsThreaded']
+PROPS_MODULES = PROPS_MODULES + ['TenpyModel.C20.Props2']   # second round of theorems (Props2.lean + P2_*.lean)
 LEAN_MODULES = PROPS_MODULES
 LEVEL = 'proof'
 BUDGET = {'quick': 170, 'thorough': 1700}
